@@ -19,7 +19,11 @@ import c08_capture as cap_mod
 import c08_gen as gen
 import c08_validate as val
 
-THEOREMS = []
+THEOREMS = ['C08_volume_str_counts', 'C08_write_wf', 'C08_prune_preserves_wf',
+            'C08_remove_empty_volumes_ok', 'C08_geomcomp_partition',
+            'C08_wf_fileb_ok', 'C08_wf_stateb_sound',
+            'C08_none_operand_refuted', 'C08_helper_plane_refuted',
+            'C08_leading_zero_refuted', 'C08_bc_unwritten_surface_refuted']
 TRUSTED = [
     'hand-written model coq/C08/Model.v (modelled, tied by execution only)',
     'numeric fields: str(float) / numpy rendering of surface parameters and '
@@ -44,7 +48,55 @@ ASSUMPTIONS = [
 HEADER = ('From Coq Require Import List NArith ZArith Bool String Ascii '
           'PrimFloat.\nFrom T4V Require Import Base.Str C08.Model C08.Exec.\n'
           'Import ListNotations.\nOpen Scope string_scope.\nOpen Scope Z_scope.\n')
-CASE_TYPE = '(bool * Z * Z * wstate payload) * observed'
+CASE_TYPE = '(bool * Z * Z * wstate payload) * observed * bool'
+
+
+
+def run_multi(name, funs, cases, chunk=40, jobs=16, timeout=900):
+    '''Like common.run_case_files but evaluates several check functions over
+    the same (expensive to elaborate) list of cases.  Returns ({fun: bad
+    indices}, errors).'''
+    from concurrent.futures import ThreadPoolExecutor
+    gen_dir = common.GEN
+    gen_dir.mkdir(exist_ok=True)
+    for old in gen_dir.glob(f'{name}_*'):
+        old.unlink()
+    files = []
+    for k in range(0, len(cases), chunk):
+        path = gen_dir / f'{name}_{k // chunk}.v'
+        body = (HEADER + 'From T4V Require Import Base.Cases.\n'
+                f'Definition cases : list ({CASE_TYPE}) :=\n  [ '
+                + '\n  ; '.join(cases[k:k + chunk]) + ' ].\n'
+                + ''.join(f'Eval vm_compute in (bad_indices ({fun}) cases).\n'
+                          for fun in funs))
+        path.write_text(body)
+        files.append((k, path))
+
+    def one(item):
+        base, path = item
+        rc, out = common.sh(['coqc'] + common.COQ_FLAGS + [str(path)],
+                            timeout, cwd=gen_dir)
+        return base, path, rc, out
+
+    bad = {fun: [] for fun in funs}
+    errors = []
+    with ThreadPoolExecutor(max_workers=jobs) as pool:
+        for base, path, rc, out in pool.map(one, files):
+            blocks = re.findall(r'=\s*\[(.*?)\]\s*:\s*list N', out, flags=re.S)
+            if rc != 0 or len(blocks) != len(funs):
+                errors.append(f'{path.name}: rc={rc}\n{out[-1500:]}')
+                continue
+            for fun, body in zip(funs, blocks):
+                for tok in body.split(';'):
+                    tok = tok.strip().replace('%N', '')
+                    if tok:
+                        bad[fun].append(base + int(tok))
+    for path in list(gen_dir.glob(f'{name}_*')) + list(
+            gen_dir.glob(f'.{name}_*')):
+        if path.suffix != '.v':
+            path.unlink()
+    return {fun: sorted(v) for fun, v in bad.items()}, errors
+
 
 # ---- known-finding witnesses (minimal decks) --------------------------------
 
@@ -233,25 +285,51 @@ def run(res, tier, seed, proofs_ok):
             except (ValueError, KeyError) as exc:
                 res.count('tie-skipped:' + type(exc).__name__)
                 continue
-            cases.append(f'({term},\n {obs})')
-            meta.append((deck_text, args, conv.exc))
+            valid = cap_mod.cbool(verdict is True or conv.text is None)
+            cases.append(f'({term},\n {obs}, {valid})')
+            meta.append((deck_text, args, conv.exc, verdict))
             if len(res.samples) < 3 and conv.text is not None and i % 7 == 0:
                 res.sample({'deck': deck_text, 'args': args,
                             'file_bytes': len(conv.text)})
-    bad, errs = common.run_case_files('c08_tie', HEADER, CASE_TYPE,
-                                      'check_case', cases, chunk=40)
+    bad, errs = run_multi('c08_tie', ['check_file', 'check_verdict',
+                                      'outside_guard'], cases)
+    n_in = len(cases) - len(bad['outside_guard']) if not errs else 0
+    res.extra['guard'] = {'cases': len(cases),
+                          'inside_wf_state (hypotheses of C08_write_wf hold '
+                          'on the tables handed to the writers)': n_in}
     res.obligation(f'tie:file ({len(cases)} runs: model convert_tail + '
                    'printer = bytes of the written file and exception class)',
-                   not bad and not errs,
-                   f'{len(bad)} disagreements {errs[:1]}')
-    for idx in bad[:10]:
-        deck_text, args, exc = meta[idx]
+                   not bad['check_file'] and not errs,
+                   f'{len(bad["check_file"])} disagreements {errs[:1]}')
+    res.obligation(f'tie:verdict ({len(cases)} runs: wf_fileb of the model\'s '
+                   'file = verdict of the independent validator on the '
+                   f'written bytes; {n_in} runs inside wf_state)',
+                   not bad['check_verdict'] and not errs,
+                   f'{len(bad["check_verdict"])} disagreements')
+    if errs:
+        res.violation('correspondence',
+                      'the generated correspondence files do not compile: '
+                      + errs[0][-400:],
+                      {'theorem_or_correspondence': 'tie:file',
+                       'errors': errs[:3]}, found_input=False)
+    for idx in bad['check_file'][:10]:
+        deck_text, args, exc, _verdict = meta[idx]
         res.violation('correspondence',
                       'model and implementation disagree on the written file '
                       f'[options {" ".join(args) or "default"}, run raised '
                       f'{exc}]',
                       {'input': {'deck': deck_text, 'args': args},
                        'theorem_or_correspondence': 'tie:file'},
+                      found_input=False)
+    for idx in [i for i in bad['check_verdict']
+                if i not in bad['check_file']][:10]:
+        deck_text, args, exc, verdict = meta[idx]
+        res.violation('correspondence',
+                      'wf_file of the model\'s file and the validator '
+                      f'disagree (validator says valid={verdict}) [options '
+                      f'{" ".join(args) or "default"}]',
+                      {'input': {'deck': deck_text, 'args': args},
+                       'theorem_or_correspondence': 'tie:verdict'},
                       found_input=False)
 
 
